@@ -1,4 +1,4 @@
-import SleapVerif.Lemmas.Datasets
+import SleapVerif.Lemmas.DatasetsBuild
 /-!
 # C11 — datasets never alter or invent labels; same index gives the same sample; length =
 number of non-empty instances
@@ -164,6 +164,13 @@ theorem padding_rows_missing (uo : Bool) (mi : Nat) (f : Frame R) :
     rw [hr.2, List.mem_replicate] at hp
     exact hp.2
 
+omit [Add R] [Sub R] [Mul R] [Div R] [LT R] [DecidableLT R] [OfNat R 0] [OfNat R 1] [OfNat R 2] [DecidableEq R] in
+/-- `SingleInstanceDataset` (`max_instances = 1`): no padding rows at all -/
+theorem single_rows_unpadded (cfg : Cfg R) (fs : List (Frame R)) (f : Frame R) (hk : cfg.kind = .single) :
+    (processInsts cfg.userOnly (cfg.maxInst fs) f).1
+      = ((f.filtered cfg.userOnly).filter (fun i => !i.isEmpty)).map (·.pts) := by
+  simp [Cfg.maxInst, hk, processInsts]
+
 /-- **missing_stays_missing** (centered-instance class): in the sample returned by `__getitem__`
 the `instance` tensor has one row per label node and every coordinate that is missing in the
 label is missing there. -/
@@ -290,6 +297,47 @@ theorem getitem_eq_spec (cfg : Cfg R) (cast : Nat → R) (fs : List (Frame R)) (
   unfold specSample
   rw [← hb, List.getElem?_map]
   cases ds.cache[i]? <;> rfl
+
+/-- **`build` refines the specification** (both hypotheses of `getitem_eq_spec`, now proved):
+for labels over one skeleton (`Uniform fs n`) and an anchor that is a node of it, the state
+built by `__init__`/`_fill_cache` (repaired `generate_centroids`) is well-formed and its cache
+reads exactly `specCache`. -/
+theorem build_refines_spec (cfg : Cfg R) (cast : Nat → R) (fs : List (Frame R)) (n : Nat)
+    (hu : Uniform fs n) (ha : ∀ a, cfg.anchor = some a → a < n) :
+    WFds (build .repaired cfg cast fs) ∧
+    (build .repaired cfg cast fs).cache.map
+        (fun e => ((build .repaired cfg cast fs).heap.readD e.1, e.2)) = specCache cfg cast fs :=
+  build_spec cfg cast fs n hu ha
+
+/-- **Unconditional form**: whatever was read before, `ds[i]` of a built dataset is
+`specSample` — a function of the labels, the configuration and the index only (`none` =
+`KeyError`). -/
+theorem getitem_eq_spec_build (cfg : Cfg R) (cast : Nat → R) (fs : List (Frame R)) (n : Nat)
+    (hu : Uniform fs n) (ha : ∀ a, cfg.anchor = some a → a < n) (js : List Nat) (i : Nat) :
+    (getItem (cfg.steps cast) (runGets (cfg.steps cast) (build .repaired cfg cast fs) js) i).2
+      = specSample cfg cast fs i := by
+  obtain ⟨W, hb⟩ := build_spec cfg cast fs n hu ha
+  exact getitem_eq_spec cfg cast fs _ W hb js i
+
+/-- the hypotheses are satisfiable: a frame with a complete and an anchorless two-node instance -/
+example (x y : R) : Uniform [(⟨0, 0, 8, 8, [⟨.user, [(some x, some y), (none, none)]⟩,
+    ⟨.predicted, [(none, none), (some x, some y)]⟩]⟩ : Frame R)] 2 ∧ ∀ a, some 1 = some a → a < 2 := by
+  refine ⟨?_, fun a h => by cases h; decide⟩
+  intro f hf i hi
+  simp only [List.mem_singleton] at hf
+  subst hf
+  simp only [List.mem_cons, List.not_mem_nil, or_false] at hi
+  rcases hi with rfl | rfl <;> rfl
+
+/-- length of the built cache = `specLen` -/
+theorem build_len (cfg : Cfg R) (cast : Nat → R) (fs : List (Frame R)) (n : Nat)
+    (hu : Uniform fs n) (ha : ∀ a, cfg.anchor = some a → a < n) :
+    (build .repaired cfg cast fs).cache.length = specLen cfg fs := by
+  have := congrArg List.length (build_spec cfg cast fs n hu ha).2
+  simp only [DS.read, List.length_map] at this
+  rw [this]
+  unfold specCache specLen
+  cases cfg.kind <;> simp
 
 /-- the invariant is satisfiable by a non-trivial state: one cached centered-instance sample -/
 example : WFds (⟨⟨[[(some (1 : Int), some 2)], [(some 3, some 4)]],
